@@ -56,6 +56,8 @@ struct Cfg {
     first: u8,
     /// run the behavioural registration probe (only meaningful when admitted)
     probe: bool,
+    /// Some(k): the peer's bytes reach the socket in two pieces, the first of k bytes (0 = one piece)
+    cut: usize,
 }
 
 const PEER_TYPES: [Option<&str>; 15] = [
@@ -91,7 +93,7 @@ fn id_len(idx: usize) -> Option<usize> {
 
 impl Cfg {
     fn to_json(&self) -> Value {
-        json!({"local": self.local.name(), "peer_type": self.peer_type, "version": [self.version.0, self.version.1], "mech": self.mech, "sig": self.sig, "identity": self.identity, "first": self.first, "probe": self.probe})
+        json!({"local": self.local.name(), "peer_type": self.peer_type, "version": [self.version.0, self.version.1], "mech": self.mech, "sig": self.sig, "identity": self.identity, "first": self.first, "probe": self.probe, "cut": self.cut})
     }
     fn from_json(v: &Value) -> Option<Cfg> {
         Some(Cfg {
@@ -103,6 +105,7 @@ impl Cfg {
             identity: v["identity"].as_u64()? as usize,
             first: v["first"].as_u64()? as u8,
             probe: v["probe"].as_bool()?,
+            cut: v["cut"].as_u64().unwrap_or(0) as usize,
         })
     }
     fn describe(&self) -> String {
@@ -116,7 +119,7 @@ impl Cfg {
             ["ok", "byte0!=FF", "byte9!=7F"][self.sig as usize],
             id_len(self.identity),
             ["READY", "other command", "message", "PING command, then READY", "SUBSCRIBE command, then READY"][self.first as usize]
-        )
+        ) + &(if self.cut > 0 { format!(", delivered in two pieces (first piece {} bytes)", self.cut) } else { String::new() })
     }
     fn identity_bytes(&self) -> Option<Vec<u8>> {
         id_len(self.identity).map(|l| (0..l).map(|i| b'A' + (i % 23) as u8).collect())
@@ -188,7 +191,11 @@ fn scenario(cfg: &Cfg) -> Verdict {
     let victim = e3::raw_conn("V");
     let mut bytes = cfg.peer_bytes();
     bytes.extend(rc::encode_message(&cfg.trailing()));
-    victim.send(&bytes);
+    if cfg.cut > 0 && cfg.cut < bytes.len() {
+        victim.send_cut(&bytes, &[cfg.cut]);
+    } else {
+        victim.send(&bytes);
+    }
     let admit = cfg.should_admit();
     let probe = cfg.probe && admit;
     let healthy = e3::raw_conn("H");
@@ -504,6 +511,7 @@ pub fn run(tier: Tier, replay: Option<String>) -> i32 {
                                     identity,
                                     first,
                                     probe: false,
+                                    cut: 0,
                                 };
                                 let admit = cfg.should_admit();
                                 if admit {
@@ -543,7 +551,7 @@ pub fn run(tier: Tier, replay: Option<String>) -> i32 {
                 if !compatible && tier == Tier::Quick && identity % 8 != 0 {
                     continue;
                 }
-                let cfg = Cfg { local, peer_type, version: (3, 0), mech: 0, sig: 0, identity, first: 0, probe: false };
+                let cfg = Cfg { local, peer_type, version: (3, 0), mech: 0, sig: 0, identity, first: 0, probe: false, cut: 0 };
                 let admit = cfg.should_admit();
                 if admit {
                     n_admit += 1;
@@ -562,6 +570,36 @@ pub fn run(tier: Tier, replay: Option<String>) -> i32 {
             }
         }
     }
+    // segmentation axis: admission does not depend on how the peer's bytes are cut. For every local type, its
+    // well-formed compatible peers (with and without identity, each first-item kind) and a few that must be refused:
+    // the handshake arrives in two pieces, the first of every length 1..len-1
+    let mut n_cuts = 0u64;
+    for local in ALL_TYPES {
+        for peer_type in 0..PEER_TYPES.len() {
+            let compatible = PEER_TYPES[peer_type].map(|p| rfc_compatible(local.name(), p)).unwrap_or(false);
+            // all compatible peers; of the others one wrong type, the unknown name and the missing property
+            if !compatible && !(peer_type == 0 || peer_type >= 12) {
+                continue;
+            }
+            for (version, identity, first) in [((3u8, 0u8), 0usize, 0u8), ((3, 1), 2, 3), ((4, 0), 3, 0), ((2, 1), 0, 0)] {
+                if !compatible && version != (3, 0) {
+                    continue;
+                }
+                let base = Cfg { local, peer_type, version, mech: 0, sig: 0, identity, first, probe: false, cut: 0 };
+                let len = base.peer_bytes().len();
+                let cuts: Vec<usize> = if tier == Tier::Thorough || (compatible && version == (3, 0)) { (1..len).collect() } else { (1..len).filter(|c| *c <= 12 || (60..=70).contains(c) || c % 7 == 0 || *c + 3 >= len).collect() };
+                for cut in cuts {
+                    let mut c = base.clone();
+                    c.cut = cut;
+                    c.probe = c.should_admit() && cut % 5 == 0;
+                    let c2 = c.clone();
+                    n_cuts += 1;
+                    jobs.push(e3::job(format!("C04/cut/{}/{}/{:?}/{}/{}/{}", local.name(), peer_type, version, identity, first, cut), c.to_json(), 0, 4, move || scenario(&c2)));
+                }
+            }
+        }
+    }
+    ck.cov("handshakes_delivered_in_two_pieces", n_cuts);
     let n_jobs = jobs.len() as u64;
     e3::run_jobs_into(&mut ck, jobs, false);
     let ex = ck.coverage.get("e3_executions").and_then(|v| v.as_u64()).unwrap_or(0);
@@ -574,7 +612,7 @@ pub fn run(tier: Tier, replay: Option<String>) -> i32 {
     ck.cov("compat_queries", n_q);
     ck.cov("identity_length_sweep_handshakes", n_idsweep);
     ck.cov("exhaustive", true);
-    ck.cov("explanation", "complete product 9 local types x 15 peer Socket-Type values (12 names, FOO, req, missing) x 5 versions x 5 mechanisms x 3 signature variants x 5 identity options x 5 first items (READY / another command / a message / PING then READY / SUBSCRIBE then READY) = 253125 real handshakes over in-memory pipes, each compared with the reference admission predicate; every configuration the reference admits is run a second time with a behavioural registration probe (second peer, strict alternation of 4 sends / exactly-once publish / routed send / reply); plus the identity axis in full (every Identity length 2..=254 and 257..=300 for every local type against each of the 12 peer type names, otherwise well-formed; admitted ones with the registration probe); plus all 144 compatible() queries under catch_unwind against the RFC table, incl. symmetry. states = configurations; transitions = handshake executions.");
+    ck.cov("explanation", "complete product 9 local types x 15 peer Socket-Type values (12 names, FOO, req, missing) x 5 versions x 5 mechanisms x 3 signature variants x 5 identity options x 5 first items (READY / another command / a message / PING then READY / SUBSCRIBE then READY) = 253125 real handshakes over in-memory pipes, each compared with the reference admission predicate; every configuration the reference admits is run a second time with a behavioural registration probe (second peer, strict alternation of 4 sends / exactly-once publish / routed send / reply); plus the identity axis in full (every Identity length 2..=254 and 257..=300 for every local type against each of the 12 peer type names, otherwise well-formed; admitted ones with the registration probe); plus a segmentation axis (for every local type its compatible peers in 4 version/identity/first-item combinations and a few that must be refused: the peer's bytes arrive in two pieces, the first of every length; coverage.handshakes_delivered_in_two_pieces); plus all 144 compatible() queries under catch_unwind against the RFC table, incl. symmetry. states = configurations; transitions = handshake executions.");
     ck.assume("the handshake code is sequential: no scheduling choice influences admission (one execution per configuration, default schedule)");
     ck.assume("RFC compatibility table transcribed in c04.rs::rfc_compatible");
     ck.conclude()
